@@ -207,10 +207,14 @@ def int_witness(t, want, inputs, extra=(), limit=200):
         n += 1
         if n > limit:
             break
-        mp = {x: tm.const(x.w, v) for x, v in zip(inputs, combo)}
-        a, b = tm.substitute(t, mp), tm.substitute(want, mp)
-        if a.op == 'const' and b.op == 'const' and a.args[0] != b.args[0]:
-            return {tm.show(x): v for x, v in zip(inputs, combo)}, a.args[0], b.args[0]
+        from . import ceval as CE
+        env = {x: v for x, v in zip(inputs, combo)}
+        try:
+            a, b = CE.evaluate(t, env), CE.evaluate(want, env)
+        except CE.NoValue:
+            continue
+        if a != b:
+            return {tm.show(x): v for x, v in zip(inputs, combo)}, a, b
     return None
 
 
